@@ -5,10 +5,10 @@
    back unchanged by to_pattern — for ALL strings / patterns of scalar values and for EVERY choice
    of the two "rendered as \u{..}" predicates (so the statement does not depend on the Unicode
    tables of the Rust standard library).
-   Not proved (see notes/C05.md): c05_expr_roundtrip / c05_policy_roundtrip on token lists — the
-   token-level parser model is not part of this development yet; the expression / policy round trip
-   is checked on the implementation by the oracle of vp/props/c05.py. *)
-From Cedar Require Import Unescape UnescapeProofs Relex RelexProofs.
+   c05_expr_roundtrip_partial (below): the token-level round trip  parse (print e) = e  for printable
+   expressions of the fragment Printable.in_fragment; the constructs outside the fragment are listed
+   there.  Not proved (see notes/C05.md): c05_lex_render, c05_policy_roundtrip, c05_policyset. *)
+From Cedar Require Import Unescape UnescapeProofs Relex RelexProofs Printable ParseProofs3.
 Open Scope N_scope.
 
 Theorem c05_escape :
@@ -69,4 +69,43 @@ Example c05_unescape_rejects :
   to_unescaped_string [92; 117; 123; 95; 52; 49; 125] = UErr /\ (* \u{_41} *)
   to_unescaped_string [92; 117; 123; 52; 95; 49; 125] = UOk [65] /\ (* \u{4_1} *)
   to_pattern [92; 117; 123; 50; 97; 125; 92; 42] = UOk [PStar; PChar 42].
+Proof. vm_compute. repeat split. Qed.
+
+(* ---- the expression round trip on token lists (partial: Printable.in_fragment) ----
+   FULL STATEMENT (not proved):  forall e, printable e = true -> parse_expr_toks (print_toks np ge e) = Some e.
+   PROVED: the same with the additional hypothesis in_fragment e = true, which excludes
+   method calls (.contains .. .hasTag, .isEmpty), extension function calls, set and record literals.
+   Inside the fragment: all literals (incl. negative and i64::MIN, strings and entity ids with
+   arbitrary scalar values), variables, slots, !, -, == < <= in + - *, && || (including the
+   left-associative chains a && b && c, a + b + c, a - b - c, a * b * c that are printed without
+   parentheses), if-then-else, .attr and [attr] chains, has, like, is — nested arbitrarily.
+   The statement with a continuation `rest` says the parser stops exactly at the end of the printed
+   expression whenever the next token cannot continue an expression (follow_ok 0). *)
+Theorem c05_expr_roundtrip_partial :
+  forall (np ge : N -> bool) (e : expr),
+    printable e = true -> in_fragment e = true ->
+    parse_expr_toks (print_toks np ge e) = Some e.
+Proof. exact expr_roundtrip. Qed.
+Print Assumptions c05_expr_roundtrip_partial.
+
+Theorem c05_expr_roundtrip_rest_partial :
+  forall (np ge : N -> bool) (e : expr) (rest : list token),
+    printable e = true -> in_fragment e = true -> follow_ok 0 rest = true ->
+    parse_expr (S (length (print_toks np ge e ++ rest))) (print_toks np ge e ++ rest)
+      = Some (sp np ge e, rest) /\ into_expr (sp np ge e) = Some e.
+Proof. exact expr_roundtrip_rest. Qed.
+Print Assumptions c05_expr_roundtrip_rest_partial.
+
+(* non-vacuity: a printable expression of the fragment using most constructs (if, &&, ||, has, like, is,
+   attribute chains with identifier and quoted names, !, unary minus, i64::MIN, -, ==, an entity id with a quote) *)
+Example c05_expr_roundtrip_ex :
+  let np := fun c => c =? 8203 in let ge := fun c => c =? 769 in
+  let e := If (And (HasAttr (GetAttr (GetAttr (Var Principal) [97]) [98; 32; 99]) [120; 32; 121])
+                   (UnApp UNot (BinApp BLess (UnApp UNeg (Lit (PLong 1)))
+                                  (BinApp BMul (Lit (PLong (-9223372036854775808))) (Lit (PLong 2))))))
+             (Like (Var Context) [PChar 97; PStar; PChar 42])
+             (Or (Is (Lit (PEntity (mkUid [[65]; [66]] [113; 34]))) [[65]; [66]])
+                 (And (And (BinApp BEq (BinApp BSub (BinApp BSub (Lit (PLong 1)) (BinApp BSub (Lit (PLong 2)) (Lit (PLong 3)))) (Lit (PLong 5))) (Lit (PLong 4)))
+                           (Var Principal)) (BinApp BLess (BinApp BMul (BinApp BMul (Lit (PLong 2)) (Lit (PLong 3))) (Lit (PLong 4))) (BinApp BAdd (BinApp BAdd (Lit (PLong 1)) (Lit (PLong 1))) (Lit (PLong 1)))))) in
+  printable e = true /\ in_fragment e = true /\ parse_expr_toks (print_toks np ge e) = Some e.
 Proof. vm_compute. repeat split. Qed.
